@@ -206,6 +206,13 @@ func (f *flower) flow(v ssa.Value, acc litSet, depth int) (bool, litSet) {
 		case ssa.CallInstruction:
 			c := x.Common()
 			a2 := acc.union(f.blockLits(x))
+			// the value itself is asked for its position by a diagnostic sink (a reporting loop that was not
+			// factored into a per-violation function)
+			if c.IsInvoke() && c.Value == v && f.storeTerminal == nil && f.P.RecvTerminal != nil && f.P.RecvTerminal(x) {
+				f.terminals = append(f.terminals, x)
+				merge(true, acc)
+				continue
+			}
 			for ai, a := range c.Args {
 				if a != v {
 					continue
@@ -535,4 +542,31 @@ func (P *Program) rekey(s litSet, ov map[ssa.Value]string) litSet {
 		r[l.String()] = l
 	}
 	return r
+}
+
+// diagPosCall: ci is v.GetPos() on a reporting.Violation whose result becomes the Pos of an analysis.Diagnostic -
+// the violation has reached a diagnostic sink (REPORT-GATE checks the sink itself).
+func (P *Program) diagPosCall(ci ssa.CallInstruction) bool {
+	call, ok := ci.(*ssa.Call)
+	if !ok || !call.Call.IsInvoke() || call.Call.Method.Name() != "GetPos" || typeStr(call.Call.Value.Type()) != "reporting.Violation" {
+		return false
+	}
+	refs := call.Referrers()
+	if refs == nil {
+		return false
+	}
+	for _, r := range *refs {
+		st, ok := r.(*ssa.Store)
+		if !ok || st.Val != ssa.Value(call) {
+			continue
+		}
+		fa, ok := st.Addr.(*ssa.FieldAddr)
+		if !ok || typeStr(deref(fa.X.Type())) != "golang.org/x/tools/go/analysis.Diagnostic" {
+			continue
+		}
+		if deref(fa.X.Type()).Underlying().(*types.Struct).Field(fa.Field).Name() == "Pos" {
+			return true
+		}
+	}
+	return false
 }
